@@ -254,7 +254,7 @@ pub const NONPORTABLE: [&str; 21] = [
 ];
 
 /// Message classes (the concretisation of Wire.tla's classes).
-fn client_msg(clock: &Clock, class: &str, i: u64) -> ClientMessage<String> {
+pub fn client_msg(clock: &Clock, class: &str, i: u64) -> ClientMessage<String> {
     let mut ctx = context::current();
     ctx.deadline = clock.std_at(clock.now_ms() as i64 + 5_000);
     ctx.trace_context = trace::Context {
@@ -289,7 +289,7 @@ fn client_msg(clock: &Clock, class: &str, i: u64) -> ClientMessage<String> {
     ClientMessage::Request(Request { context: ctx, id, message: body })
 }
 
-fn response_msg(class: &str, i: u64) -> Response<String> {
+pub fn response_msg(class: &str, i: u64) -> Response<String> {
     match class {
         "resp" => Response { request_id: i, message: Ok(format!("r{}", i)) },
         "resp-idmax" => Response { request_id: u64::MAX, message: Ok("".to_string()) },
@@ -303,7 +303,7 @@ fn response_msg(class: &str, i: u64) -> Response<String> {
     }
 }
 
-fn describe_cm(clock: &Clock, m: &ClientMessage<String>) -> Value {
+pub fn describe_cm(clock: &Clock, m: &ClientMessage<String>) -> Value {
     match m {
         ClientMessage::Request(r) => json!({"kind": "req", "id": format!("{}", r.id),
             "body": if r.message.len() > 64 { format!("len{}", r.message.len()) } else { r.message.clone() },
@@ -322,7 +322,7 @@ fn describe_cm(clock: &Clock, m: &ClientMessage<String>) -> Value {
     }
 }
 
-fn describe_resp(r: &Response<String>) -> Value {
+pub fn describe_resp(r: &Response<String>) -> Value {
     match &r.message {
         Ok(b) => json!({"kind": "resp", "id": format!("{}", r.request_id),
             "body": if b.len() > 64 { format!("len{}", b.len()) } else { b.clone() }, "bodylen": b.len(),
